@@ -46,6 +46,9 @@ type ToolDef struct {
 	Via  string `json:"via"`  // infer | new | raw | inferopt | raw2 | inferopt2 | inferjson | newum | inferptr | newptr | newmap (inferptr/newptr: utils tool whose argument type is a pointer to a struct, newmap: a map; raw/inferopt tools read the tag options, raw2/inferopt2 tools the options of the other implementation-specific type, the others none; inferjson: utils' default output marshalling, i.e. every output / chunk as a JSON string; newum: utils tool with a custom argument unmarshaller)
 	// its Info call fails
 	InfoErr bool `json:"info_err,omitempty"`
+	// the tool is handed to the node as a struct VALUE (value receivers) of a type that is not comparable (it holds
+	// a slice): a legal implementation of the tool interfaces that can be neither a map key nor an operand of ==
+	Val bool `json:"val,omitempty"`
 }
 
 // convTools cannot take this tool
@@ -138,6 +141,15 @@ type Case struct {
 	// (the ReAct shape), fanout = tools node -> two ordinary nodes, copy = StreamReader.Copy(2) of ToolsNode.Stream,
 	// each copy concatenated
 	Fan string `json:"fan,omitempty"`
+	// the shared-node run of the streamed form CONSUMED LATE: Stream returns its stream, then the later call on the
+	// same node (an unrelated message: other calls, other ids) runs to completion, and only then are the frames of
+	// the first stream read (what a stream carries - ids, positions, contents - is fixed when Stream returns it,
+	// whatever the node does afterwards)
+	Lazy bool `json:"lazy,omitempty"`
+	// what the calls of the shared runs share: "" = one ToolsNode called directly, graph = one COMPILED graph
+	// (Graph / Workflow / nested, as graph_kind says) hosting the node: the first calls on the freshly compiled
+	// object run concurrently, the later call is another run of the same compiled object
+	SharedIn string `json:"shared_in,omitempty"`
 }
 
 // the assistant message as the chunks of a model's output stream (they concatenate to c.message())
@@ -619,7 +631,60 @@ func (badInfo) Info(context.Context) (*schema.ToolInfo, error) {
 	return nil, errors.New("harness: no tool info")
 }
 
+// tools as struct values of a non-comparable type (they implement exactly the run interfaces of what they wrap)
+type valInv struct {
+	t   tool.InvokableTool
+	pad []int
+}
+
+func (v valInv) Info(ctx context.Context) (*schema.ToolInfo, error) { return v.t.Info(ctx) }
+func (v valInv) InvokableRun(ctx context.Context, a string, o ...tool.Option) (string, error) {
+	return v.t.InvokableRun(ctx, a, o...)
+}
+
+type valStr struct {
+	t   tool.StreamableTool
+	pad []int
+}
+
+func (v valStr) Info(ctx context.Context) (*schema.ToolInfo, error) { return v.t.Info(ctx) }
+func (v valStr) StreamableRun(ctx context.Context, a string, o ...tool.Option) (*schema.StreamReader[string], error) {
+	return v.t.StreamableRun(ctx, a, o...)
+}
+
+type valBoth struct {
+	i   tool.InvokableTool
+	s   tool.StreamableTool
+	pad []int
+}
+
+func (v valBoth) Info(ctx context.Context) (*schema.ToolInfo, error) { return v.i.Info(ctx) }
+func (v valBoth) InvokableRun(ctx context.Context, a string, o ...tool.Option) (string, error) {
+	return v.i.InvokableRun(ctx, a, o...)
+}
+func (v valBoth) StreamableRun(ctx context.Context, a string, o ...tool.Option) (*schema.StreamReader[string], error) {
+	return v.s.StreamableRun(ctx, a, o...)
+}
+
 func buildTool(rc *recorder, d ToolDef) (tool.BaseTool, error) {
+	t, err := buildTool0(rc, d)
+	if err != nil || !d.Val || d.bad() {
+		return t, err
+	}
+	i, isInv := t.(tool.InvokableTool)
+	s, isStr := t.(tool.StreamableTool)
+	switch {
+	case isInv && isStr:
+		return valBoth{i, s, []int{1}}, nil
+	case isInv:
+		return valInv{i, []int{1}}, nil
+	case isStr:
+		return valStr{s, []int{1}}, nil
+	}
+	return t, nil
+}
+
+func buildTool0(rc *recorder, d ToolDef) (tool.BaseTool, error) {
 	name := d.Name
 	if d.InfoErr {
 		return badInfo{}, nil
@@ -788,7 +853,13 @@ func buildNode(rc *recorder) (*compose.ToolsNode, error) {
 			return "", nil
 		}
 	}
-	return compose.NewToolNode(context.Background(), conf)
+	// (a panic of NewToolNode on a legal tool list is reported as "the node could not be built", not a harness crash)
+	var tn *compose.ToolsNode
+	var err error
+	if p := lib.Recover(func() { tn, err = compose.NewToolNode(context.Background(), conf) }); p != nil {
+		return nil, fmt.Errorf("NewToolNode panicked: %v", p)
+	}
+	return tn, err
 }
 
 func (c *Case) message() *schema.Message {
@@ -818,10 +889,12 @@ type Chunk struct {
 }
 
 type RunObs struct {
-	Mode      string  `json:"mode"`            // invoke | stream | concat
-	Host      string  `json:"host"`            // standalone | graph
-	Entry     string  `json:"entry,omitempty"` // graph-hosted: "" = Invoke / Stream, collect = Collect (mode concat: the graph runs in stream mode and concatenates its output itself), transform = Transform; the message arrives as a stream
-	Class     string  `json:"class"`           // msgs | err | panic | chunks | hang | setup
+	Mode      string  `json:"mode"`                // invoke | stream | concat
+	Host      string  `json:"host"`                // standalone | graph
+	ReadLate  bool    `json:"read_late,omitempty"` // the stream was read only after a later call on the same node had returned
+	InGraph   bool    `json:"in_graph,omitempty"`  // a shared run whose calls go through one compiled graph hosting the node
+	Entry     string  `json:"entry,omitempty"`     // graph-hosted: "" = Invoke / Stream, collect = Collect (mode concat: the graph runs in stream mode and concatenates its output itself), transform = Transform; the message arrives as a stream
+	Class     string  `json:"class"`               // msgs | err | panic | chunks | hang | setup
 	Msgs      []*Msg  `json:"msgs,omitempty"`
 	Err       int     `json:"err,omitempty"`
 	ErrAs     bool    `json:"err_as,omitempty"` // the error (call error or the stream's error item) unwraps to the tool's own error value (errors.As)
@@ -1045,6 +1118,38 @@ func observe(o *RunObs, mode string, n int, inv func() ([]*schema.Message, error
 	}
 }
 
+// the streamed form consumed late: the stream is opened; `between` runs (other calls on the same node, to
+// completion); only then are the frames read
+func observeLate(o *RunObs, n int, str func() (*schema.StreamReader[[]*schema.Message], error), between func()) {
+	var err error
+	var sr *schema.StreamReader[[]*schema.Message]
+	var raw [][]*schema.Message
+	p, hung := guarded(func() { sr, err = str() })
+	if !hung && p == nil {
+		between()
+		if err == nil {
+			o.ReadLate = true
+			p, hung = guarded(func() { raw, o.Chunks, o.Fin, o.ErrMsg, o.ErrAs = readChunks(sr, n, true) })
+		}
+	}
+	switch {
+	case hung:
+		o.Class = "hang"
+	case p != nil:
+		o.Class, o.ErrMsg = panicClass(p), short(fmt.Sprint(p))
+	case err != nil:
+		o.Class, o.Err, o.ErrMsg, o.ErrAs = "err", classify(err), short(err.Error()), unwraps(err)
+	default:
+		o.Class = "chunks"
+		o.rawFrames = raw
+		if o.Fin == nil {
+			o.setConcat(raw)
+		} else {
+			o.CCls = "none"
+		}
+	}
+}
+
 // let the tools that were started on goroutines finish (they always do: after a panic of the
 // inline task the node does not wait for them), then take the execution record
 var slowSettles int
@@ -1171,7 +1276,16 @@ func runOne(c *Case, mode, host string, entry ...string) (o RunObs, peer *RunObs
 
 	var inv func() ([]*schema.Message, error)
 	var str func() (*schema.StreamReader[[]*schema.Message], error)
-	if host != "graph" {
+	// the entry points another call (the concurrent peer, the later call) of a shared run goes through
+	invOf := func(cctx context.Context, cc *Case, m *schema.Message, no []compose.ToolsNodeOption) func() ([]*schema.Message, error) {
+		return func() ([]*schema.Message, error) { return tn.Invoke(cctx, m, no...) }
+	}
+	strOf := func(cctx context.Context, cc *Case, m *schema.Message, no []compose.ToolsNodeOption) func() (*schema.StreamReader[[]*schema.Message], error) {
+		return func() (*schema.StreamReader[[]*schema.Message], error) { return tn.Stream(cctx, m, no...) }
+	}
+	hosted := host == "graph" || (host == "shared" && c.SharedIn == "graph")
+	o.InGraph = hosted && host == "shared"
+	if !hosted {
 		inv = func() ([]*schema.Message, error) { return tn.Invoke(ctx, msg, nopts...) }
 		str = func() (*schema.StreamReader[[]*schema.Message], error) { return tn.Stream(ctx, msg, nopts...) }
 	} else {
@@ -1232,6 +1346,14 @@ func runOne(c *Case, mode, host string, entry ...string) (o RunObs, peer *RunObs
 		gopts := c.graphOptions(nopts)
 		inv = func() ([]*schema.Message, error) { return r.Invoke(ctx, msg, gopts...) }
 		str = func() (*schema.StreamReader[[]*schema.Message], error) { return r.Stream(ctx, msg, gopts...) }
+		invOf = func(cctx context.Context, cc *Case, m *schema.Message, no []compose.ToolsNodeOption) func() ([]*schema.Message, error) {
+			return func() ([]*schema.Message, error) { return r.Invoke(cctx, m, cc.graphOptions(no)...) }
+		}
+		strOf = func(cctx context.Context, cc *Case, m *schema.Message, no []compose.ToolsNodeOption) func() (*schema.StreamReader[[]*schema.Message], error) {
+			return func() (*schema.StreamReader[[]*schema.Message], error) {
+				return r.Stream(cctx, m, cc.graphOptions(no)...)
+			}
+		}
 		if o.Entry != "" { // the stream-input entries: the graph concatenates the chunks in front of the tools node
 			str = func() (*schema.StreamReader[[]*schema.Message], error) {
 				return r.Transform(ctx, schema.StreamReaderFromArray(c.messageChunks()), gopts...)
@@ -1252,7 +1374,7 @@ func runOne(c *Case, mode, host string, entry ...string) (o RunObs, peer *RunObs
 	if host == "shared" {
 		pc = c.peerCase()
 		rc.peer = &recorder{c: pc}
-		peer = &RunObs{Mode: mode, Host: "shared-peer"}
+		peer = &RunObs{Mode: mode, Host: "shared-peer", InGraph: o.InGraph}
 		pctx := context.WithValue(ctx, peerKey{}, rc.peer)
 		pmsg := pc.message()
 		peerDone = make(chan struct{})
@@ -1263,13 +1385,44 @@ func runOne(c *Case, mode, host string, entry ...string) (o RunObs, peer *RunObs
 		}
 		go func() {
 			defer close(peerDone)
-			observe(peer, mode, len(pc.Calls),
-				func() ([]*schema.Message, error) { return tn.Invoke(pctx, pmsg, pnopts...) },
-				func() (*schema.StreamReader[[]*schema.Message], error) { return tn.Stream(pctx, pmsg, pnopts...) })
+			observe(peer, mode, len(pc.Calls), invOf(pctx, pc, pmsg, pnopts), strOf(pctx, pc, pmsg, pnopts))
 		}()
 	}
 
-	observe(&o, mode, n, inv, str)
+	// ... and a LATER call on the same node, after the first two have returned: it is answered on its own
+	// calls, tool list and tool options (nothing of an earlier call survives in the node), and what the
+	// earlier call returned is not touched by it
+	lazy := c.Lazy && host == "shared" && mode == "stream"
+	runLate := func() bool {
+		lc = c.lateCase()
+		if lazy { // an unrelated message: other ids as well
+			for i := range lc.Calls {
+				lc.Calls[i].ID += "~"
+			}
+		}
+		lrec := &recorder{c: lc}
+		late = &RunObs{Mode: mode, Host: "shared-late", InGraph: o.InGraph}
+		lctx := context.WithValue(ctx, peerKey{}, lrec)
+		lmsg := lc.message()
+		lnopts, lerr := lc.nodeOptions(rc)
+		if lerr != nil {
+			late, lc = nil, nil
+			return false
+		}
+		observe(late, mode, len(lc.Calls), invOf(lctx, lc, lmsg, lnopts), strOf(lctx, lc, lmsg, lnopts))
+		lrec.settle(late, lc)
+		return true
+	}
+	if lazy {
+		// the stream is opened, the concurrent peer call and then the later call run to their end, and only then
+		// are the frames of the first stream read
+		observeLate(&o, n, str, func() {
+			<-peerDone
+			runLate()
+		})
+	} else {
+		observe(&o, mode, n, inv, str)
+	}
 	if peerDone != nil {
 		<-peerDone
 	}
@@ -1277,24 +1430,10 @@ func runOne(c *Case, mode, host string, entry ...string) (o RunObs, peer *RunObs
 	if peer != nil {
 		rc.peer.settle(peer, pc)
 	}
-	if host == "shared" && (o.Class == "msgs" || o.Class == "chunks" || o.Class == "err") {
-		// ... and a LATER call on the same node, after the first two have returned: it is answered on its own
-		// calls, tool list and tool options (nothing of an earlier call survives in the node), and what the
-		// earlier call returned is not touched by it
-		lc = c.lateCase()
-		lrec := &recorder{c: lc}
-		late = &RunObs{Mode: mode, Host: "shared-late"}
-		lctx := context.WithValue(ctx, peerKey{}, lrec)
-		lmsg := lc.message()
-		lnopts, lerr := lc.nodeOptions(rc)
-		if lerr != nil {
-			late, lc = nil, nil
+	if host == "shared" && !lazy && (o.Class == "msgs" || o.Class == "chunks" || o.Class == "err") {
+		if !runLate() {
 			return
 		}
-		observe(late, mode, len(lc.Calls),
-			func() ([]*schema.Message, error) { return tn.Invoke(lctx, lmsg, lnopts...) },
-			func() (*schema.StreamReader[[]*schema.Message], error) { return tn.Stream(lctx, lmsg, lnopts...) })
-		lrec.settle(late, lc)
 		switch {
 		case o.rawMsgs != nil:
 			if now := msgsOf(o.rawMsgs); !msgsEqual(now, o.Msgs) {
@@ -1664,7 +1803,7 @@ func (o *RunObs) coqConcat() string {
 // "" if the run cannot be expressed as a model observation (hang, foreign panic, setup error)
 func (o *RunObs) coq() string {
 	host := "HStandalone" // also for "shared": the concurrent peer call must not matter
-	if o.Host == "graph" {
+	if o.Host == "graph" || o.InGraph {
 		host = "HGraph"
 	}
 	pi, ex := coqNatList(o.Pi), coqExec(o.Exec)
@@ -1914,6 +2053,12 @@ func msgsEqual(a, b []*Msg) bool {
 func (c *Case) oracle(o *RunObs) (string, string) {
 	s := c.spec(o.Mode != "invoke")
 	tag := o.Mode + "/" + o.Host
+	if o.InGraph {
+		tag += "(the calls of this run share one compiled graph hosting the node)"
+	}
+	if o.ReadLate {
+		tag += "(the stream was read after a later call on the same node, with other calls and ids, had returned)"
+	}
 	fan := strings.HasPrefix(o.Entry, "fan:")
 	switch {
 	case fan:
@@ -1932,7 +2077,7 @@ func (c *Case) oracle(o *RunObs) (string, string) {
 		if !s.panics {
 			return tag + ": panic although no called tool panics", "foreign-panic"
 		}
-		if o.Host == "graph" {
+		if o.Host == "graph" || o.InGraph {
 			return tag + ": a panicking tool escaped from the graph run as a panic", "panic-escaped-run"
 		}
 		return "", "" // standalone: there is no enclosing run; the panic reaches the caller (recorded)
@@ -2064,6 +2209,7 @@ func genTool(r *lib.Rng, name string) ToolDef {
 	if d.jsonOut() && d.Kind == "both" {
 		d.Kind = r.Pick([]string{"inv", "str"})
 	}
+	d.Val = r.Chance(1, 6)
 	return d
 }
 
@@ -2118,6 +2264,12 @@ func genCase(r *lib.Rng, tier string) *Case {
 	names := []string{}
 	for _, t := range c.Tools {
 		names = append(names, t.Name)
+	}
+	if r.Chance(1, 30) {
+		// a node configured with NO tool at all (every call is answered by the unknown-tool handler, by the tools
+		// of the call's own list, or is an unknown name)
+		c.Tools = nil
+		names = names[:1]
 	}
 	genList := func() *[]ToolDef {
 		l := []ToolDef{}
@@ -2255,6 +2407,10 @@ func genCase(r *lib.Rng, tier string) *Case {
 		c.Calls = nil
 	}
 	c.Fan = r.Pick([]string{"branch", "fanout", "copy", "branch", "fanout", ""})
+	c.Lazy = r.Chance(1, 2)
+	if r.Chance(1, 2) {
+		c.SharedIn = "graph"
+	}
 	return c
 }
 
@@ -2285,6 +2441,9 @@ func (engine) Decode(raw json.RawMessage) (any, error) {
 	}
 	if c.GraphKind != "" && c.GraphKind != "workflow" && c.GraphKind != "nested" {
 		return nil, fmt.Errorf("graph_kind %q", c.GraphKind)
+	}
+	if c.SharedIn != "" && c.SharedIn != "graph" {
+		return nil, fmt.Errorf("shared_in %q", c.SharedIn)
 	}
 	switch c.Fan {
 	case "", "branch", "fanout", "copy":
@@ -2497,6 +2656,9 @@ func (engine) runCase(c *Case) lib.Result {
 		}
 		kinds[k] = true
 		viasCalled[c.toolOf(cl.Name).Via] = true
+		if c.toolOf(cl.Name).Val {
+			viasCalled["(a struct value of a non-comparable type)"] = true
+		}
 		if cl.K < 0 {
 			malformed++
 			continue
@@ -2553,6 +2715,11 @@ func (engine) runCase(c *Case) lib.Result {
 	res.Tags = append(res.Tags, "graph-host:"+map[string]string{"": "graph", "workflow": "workflow", "nested": "nested-graph"}[c.GraphKind])
 	res.Tags = append(res.Tags, "entries:collect+transform:"+[]string{"not-run", "one-chunk", "calls-over-two-chunks", "arguments-cut-in-two"}[c.InputSplit])
 	res.Tags = append(res.Tags, "stream-consumers:"+map[string]string{"": "one", "branch": "branch-condition+selected-node", "fanout": "two-successors", "copy": "StreamReader.Copy(2)"}[c.Fan])
+	if len(c.Tools) == 0 {
+		res.Tags = append(res.Tags, "configured-tools:none")
+	}
+	res.Tags = append(res.Tags, "shared-runs-share:"+map[string]string{"": "the-node", "graph": "a-compiled-graph-hosting-the-node"}[c.SharedIn])
+	res.Tags = append(res.Tags, "shared-node-stream-read:"+map[bool]string{false: "at-once", true: "after-the-later-call"}[c.Lazy])
 	if malformed > 0 {
 		res.Tags = append(res.Tags, "malformed:arguments")
 	}
@@ -2656,6 +2823,20 @@ func (engine) Shrink(ci any, stillFails func(any) bool) any {
 				cur, changed = t, true
 				break
 			}
+		}
+	}
+	if cur.SharedIn != "" {
+		t := cur
+		t.SharedIn = ""
+		if stillFails(&t) {
+			cur = t
+		}
+	}
+	if cur.Lazy {
+		t := cur
+		t.Lazy = false
+		if stillFails(&t) {
+			cur = t
 		}
 	}
 	if cur.GraphOpts != "" {
